@@ -3,7 +3,11 @@ from driver.common import Case
 
 ID = "C10"
 LEAN_MODULES = ["Gv.Props.C10"]
-REQUIRED_THEOREMS = []
+REQUIRED_THEOREMS = ["Gv.Props.C10." + n for n in [
+    "goGen_intn_lt", "runSeed_is_runTape", "shuffle_is_row_permutation", "perm_is_permutation", "sample_distinct_rows",
+    "columns_distinct", "bootstrap_columns_original", "bootstrap_every_site_reachable", "window_is_contiguous",
+    "window_every_offset_reachable", "mutate_frame", "permProg_wf", "shuffleSequences_wf", "bootstrap_wf",
+    "sampleRows_wf", "randSubAlign_wf", "bootstrap_every_seed", "shuffle_every_seed"]]
 LEVEL_TEXT = ("Lean theorems over programs-with-random-draws (RProg): each modelled randomised operation keeps its promise for "
               "EVERY admissible answer tape (hence every seed: runGen_is_runTape), and support theorems exhibit a tape for every "
               "admissible outcome (each site bootstrapped, each window offset incl. the last, each row sampled); tied to /repo by "
@@ -15,7 +19,12 @@ TECHNIQUE = "Lean 4 proof (free monad over random draws, all tapes; support by w
 RULE = ("alignments of 1..6 rows x 1..12 columns (nucleotide / protein, gaps and specials), each randomised operation with "
         "rates / proportions / lengths in and at the borders of their domains (0, 1, 1/2, out-of-range), seeds drawn from "
         "VERIF_SEED; non-trivial = at least 2 rows and 2 columns and a parameter strictly inside its domain")
-PARTIAL = []
+PARTIAL = ["proved in Lean for all tapes: ShuffleSequences, rand.Perm, Sample, RandSubAlign (both modes), BuildBootstrap (invariant + "
+           "support), Mutate (frame); NOT yet theorems (checked only by the decidable promise evaluated on the implementation's "
+           "output and by exact replay): AddGaps, Swap, Recombine, SimulateRogue",
+           "ShuffleSites and Rarefy are not modelled yet",
+           "support ('positive probability') is proved in the ideal-source reading: an admissible tape exists for every admissible "
+           "outcome; the statistical support run of the property is not performed"]
 
 NT = "ACGT"
 AA = "ARNDCQEGHILKMFPSTWYV"
